@@ -65,7 +65,7 @@ def run(ctx):
     from vlib import impl  # noqa: F401
     from ahbicht.models.condition_nodes import ConditionFulfilledValue as V
 
-    built, cases = common(ctx, "Props/C04.vo")
+    built, cases = common(ctx, "Props/C04.vo", extra_gens=["Gen_fcmsg"])
     raws = correspondence(ctx, cases, "C04")
     # oracle: the statement itself on ahbicht -- state = recursive application of the enum operators
     seen, nontrivial = set(), 0
